@@ -1,5 +1,6 @@
 #!/bin/bash
-# usage: ./mutrun.sh <file relative to /repo> <check-ID>...        (env: FROM=<n> TO=<n> to run a slice)
+# usage: ./mutrun.sh <file relative to /repo> <check-ID>...        (env: FROM=<n> TO=<n> to run a slice; ONLY="m0002 m0007" to
+# re-run named mutants, e.g. the survivors of a first pass with further checks: lines are appended, the last line per id counts)
 # Exhaustive first-order mutation run for one source file of elastic/go-seccomp-bpf: every mutant produced by
 # harness/cmd/mutgen is put into a scratch worktree (never into /repo); mutants that do not compile or that the
 # repository's own tests already reject are set aside; for the rest the named quick checks run in the given order until
@@ -16,13 +17,14 @@ git -C /repo worktree add --detach "$W" HEAD >/dev/null 2>&1 || { echo "worktree
 (cd "$ROOT/harness" && go build -o "$M/mutgen" ./cmd/mutgen) || exit 2
 "$M/mutgen" "/repo/$REL" "$M/out" || exit 2
 mkdir -p "$ROOT/mutation"; OUT="$ROOT/mutation/$TAG.tsv"
-[ -z "$FROM" ] && : > "$OUT"
+[ -z "$FROM" ] && [ -z "$ONLY" ] && : > "$OUT"
 n=$(wc -l < "$M/out/index.jsonl"); i=0
 while read -r line; do
   i=$((i+1))
   [ -n "$FROM" ] && [ $i -lt "$FROM" ] && continue
   [ -n "$TO" ] && [ $i -gt "$TO" ] && break
   id=$(echo "$line" | jq -r .id)
+  if [ -n "$ONLY" ]; then case " $ONLY " in *" $id "*) ;; *) continue;; esac; fi
   desc=$(echo "$line" | jq -r '[.id, .line, .func, .op, (.before|gsub("[\t\n]";" ")), (.after|gsub("[\t\n]";" "))] | @tsv')
   cp "$M/out/$id.go" "$W/$REL"
   verdict=""; key=""
@@ -41,4 +43,4 @@ while read -r line; do
   echo "[$i/$n] $id $verdict"
   git -C "$W" checkout -- . >/dev/null 2>&1
 done < "$M/out/index.jsonl"
-echo "== $REL: $(cut -f7 "$OUT" | sed 's/:.*//' | sort | uniq -c | tr '\n' ' ')"
+echo "== $REL: $(tac "$OUT" | awk -F'\t' '!seen[$1]++' | cut -f7 | sed 's/:.*//' | sort | uniq -c | tr '\n' ' ')"
